@@ -124,6 +124,10 @@ fn run_one(cmd: &str, input: &[u8]) -> String {
         }
         if let Err(e) = w.commit() { return format!("ERR commit {}", e); }
       }
+      // optional "compact": true - the segments are compacted into one before the requests are answered
+      if v["compact"].as_bool().unwrap_or(false) {
+        if let Err(e) = idx.compact() { return format!("ERR compact {}", e); }
+      }
       let reader = match idx.reader() { Ok(r) => r, Err(e) => return format!("ERR reader {}", e) };
       let mut outs = Vec::new();
       for r in v["requests"].as_array().unwrap_or(&empty) {
